@@ -110,6 +110,40 @@ def dates(case):
     return [float(x) for x in new.nodes_time]
 
 
+def api_check(ctx, case, res, stats):
+    """option plumbing: the PUBLIC entry points (tsdate.inside_outside / tsdate.date) called with
+    ignore_oldest_root=True and the case's other options must hand back the same outside values as the direct drive
+    of BeliefPropagation.outside_pass(ignore_oldest_root=True) that the checks above examined"""
+    import tsdate
+    ts = D.ts_from_dict(case["ts"])
+    kw = dict(mutation_rate=D.opt(case, "mu", case["mu"]), priors=D.make_priors(case, ts), eps=D.opt(case, "eps", case["eps"]),
+              probability_space=case["space"], ignore_oldest_root=D.opt(case, "ign", True), num_threads=case.get("num_threads"),
+              cache_inside=D.opt(case, "cache", bool(case.get("cache_inside"))), record_provenance=False, return_fit=True)
+    std = case.get("out_std", True)
+    if not (std and ctx.rng.random() < 0.5):        # default (None) half of the time when standardisation is on
+        kw["outside_standardize"] = D.opt(case, "out_std", bool(std))
+    via_date = ctx.rng.random() < 0.4
+    try:
+        _new, fit = tsdate.date(ts, method="inside_outside", **kw) if via_date else tsdate.inside_outside(ts, **kw)
+    except Exception as e:
+        ctx.oracle_fail("exception:" + type(e).__name__, "public inside_outside(ignore_oldest_root=True) raised %r" % (e,), {"case": case})
+        return
+    worst = 0.0
+    for u, want in enumerate(res["outside"]):
+        if want is None:
+            continue
+        got = [float(a) for a in fit.outside[u]]
+        for x, y in zip(want, got):
+            worst = max(worst, rel(x, y))
+    ctx.tally("api-plumbing/" + ("date" if via_date else "inside_outside") + ("/std-default" if "outside_standardize" not in kw else "/std=%s" % bool(std)))
+    stats["api"] = max(stats.get("api", 0.0), worst)
+    if not worst <= 1e-12:
+        ctx.oracle_fail("public-entry-point-loses-ignore_oldest_root",
+                        "fit.outside from the public call (%s, outside_standardize=%r) differs by %.3g from "
+                        "BeliefPropagation.outside_pass(ignore_oldest_root=True, standardize=%r)"
+                        % ("date" if via_date else "inside_outside", kw.get("outside_standardize", "default"), worst, bool(std)), {"case": case})
+
+
 def renumber_check(ctx, case, stats):
     """public API: renumbering the non-sample nodes must not change the dates"""
     rng = ctx.rng
@@ -224,6 +258,7 @@ def run(ctx, model_ok=True):
         spec_check(ctx, c, r, stats)
         renumber_check(ctx, c, stats)
         mutation_check(ctx, c, r, stats)
+        api_check(ctx, c, r, stats)
         if multi_edge_child(c["ts"]):
             ctx.tally("child-with-several-edges-from-oldest-root" + ("/natural" if nat else "/renumbered"))
     ctx.notes["max_posterior_change_from_root_edge_mutations"] = stats.get("mutation")
@@ -244,6 +279,7 @@ def search(ctx):
         spec_check(ctx, c, r, stats)
         renumber_check(ctx, c, stats)
         mutation_check(ctx, c, r, stats)
+        api_check(ctx, c, r, stats)
         if ctx.oracle_fails:
             return
 
